@@ -39,6 +39,9 @@ type RecWrite struct {
 }
 
 func (f *FakeInflux) NewNamedClient(name string) (influxdb.Client, error) {
+	if name == "unreachable" {
+		return nil, errors.New("no such InfluxDB cluster: unreachable")
+	}
 	return &fakeClient{f: f, cluster: name}, nil
 }
 
